@@ -1,7 +1,7 @@
 (** StreamMachine.v — facts about the STATE MACHINE layer of Stream.v
     (stream.Writer / stream.Reader over the IO model).  Lemmas only. *)
 
-From Age Require Import Base IO Stream.
+From Age Require Import Base IO Stream StreamFacts.
 From Coq Require Import ZifyN ZifyNat ZifyBool.
 
 (** * Lists *)
@@ -50,30 +50,27 @@ Qed.
 Lemma length_zero_nil : forall (A : Type) (l : list A), length l = 0 -> l = [].
 Proof. intros A l H; destruct l; [reflexivity|discriminate]. Qed.
 
-Lemma is_prefix_nil : forall l, is_prefix [] l = true.
-Proof. reflexivity. Qed.
-
-Lemma byte_eqb_refl : forall b, Byte.eqb b b = true.
+Lemma sm_byte_eqb_refl : forall b, Byte.eqb b b = true.
 Proof. intro b. apply Byte.byte_dec_lb. reflexivity. Qed.
 
-Lemma is_prefix_app_same : forall p q r,
+Lemma sm_is_prefix_app_same : forall p q r,
   is_prefix q r = true -> is_prefix (p ++ q) (p ++ r) = true.
 Proof.
   intro p; induction p as [|x p IH]; intros q r H.
   - exact H.
-  - cbn [app is_prefix]. rewrite byte_eqb_refl. cbn [andb]. now apply IH.
+  - cbn [app is_prefix]. rewrite sm_byte_eqb_refl. cbn [andb]. now apply IH.
 Qed.
 
-Lemma is_prefix_refl : forall p, is_prefix p p = true.
+Lemma sm_is_prefix_refl : forall p, is_prefix p p = true.
 Proof.
   intro p; induction p as [|x p IH]; [reflexivity|].
-  cbn [is_prefix]. now rewrite byte_eqb_refl, IH.
+  cbn [is_prefix]. now rewrite sm_byte_eqb_refl, IH.
 Qed.
 
-Lemma is_prefix_app_r : forall p q, is_prefix p (p ++ q) = true.
+Lemma sm_is_prefix_app_r : forall p q, is_prefix p (p ++ q) = true.
 Proof.
   intros p q; induction p as [|x p IH]; [reflexivity|].
-  cbn [app is_prefix]. now rewrite byte_eqb_refl, IH.
+  cbn [app is_prefix]. now rewrite sm_byte_eqb_refl, IH.
 Qed.
 
 (** * IO: [src_read] and [read_full] on well-formed sources *)
@@ -392,7 +389,7 @@ Section WriterFacts.
   Qed.
 
   (** Tight size bound of the ciphertext, in chunks. *)
-  Lemma enc_chunks_length : forall fuel ctr p,
+  Lemma enc_chunks_size_le : forall fuel ctr p,
     (forall n q, length (seal n q) = length q + 16) ->
     length (concat (map (fun x => snd x) (enc_chunks_fuel cs seal fuel ctr p)))
     <= Nat.max 1 (length p) * ecs cs.
@@ -986,3 +983,284 @@ Section ReaderBasics.
     try_open open_ ctr last c = (Some p, a) -> open_ (nonce_of ctr last) c = Some p.
   Proof. intros ctr last c p a H. unfold try_open in H. inversion H. reflexivity. Qed.
 End ReaderBasics.
+
+Section ReaderFacts.
+  Variable cs : nat.
+  Hypothesis cs_pos : 0 < cs.
+  Variable open_ : bytes -> bytes -> option bytes.
+
+  Lemma dec_fuel_cons : forall f ctr ct,
+    ct <> [] ->
+    dec_fuel cs open_ (S f) ctr ct =
+    (let c := firstn (ecs cs) ct in
+     let rest := skipn (ecs cs) ct in
+     if Nat.ltb (length ct) (ecs cs) then
+       if negb (N.eqb ctr 0) && Nat.eqb (length c) overhead
+       then ([], Failed EPayload, [])
+       else
+         match try_open open_ ctr true c with
+         | (Some p, a) => (p, CleanEOF, [a])
+         | (None, a) => ([], Failed EPayload, [a])
+         end
+     else
+       match try_open open_ ctr false c with
+       | (Some p, a) =>
+           if N.eqb (ctr + 1) ctr_limit then (p, Failed EOther, [a])
+           else
+             let '(q, o, l) := dec_fuel cs open_ f (ctr + 1) rest in
+             (p ++ q, o, a :: l)
+       | (None, a) =>
+           match try_open open_ ctr true c with
+           | (Some p, a') =>
+               (p, match rest with [] => CleanEOF | _ => Failed ETrailing end, [a; a'])
+           | (None, a') => ([], Failed EPayload, [a; a'])
+           end
+       end).
+  Proof. intros f ctr ct H. destruct ct; [congruence|reflexivity]. Qed.
+
+  (** The fault-free run follows [dec_fuel], whatever the schedule. *)
+  Lemma drain_nofault : open_len_ok open_ -> forall f ct ctr m,
+    length ct < f -> length ct <= m * ecs cs -> (ctr + N.of_nat m < ctr_limit)%N ->
+    forall F caps dflt pieces eofd fc log acc, 2 * length ct + 1 <= F ->
+    forall q o l, dec_fuel cs open_ f ctr ct = (q, o, l) ->
+    exists stf,
+      r_drain cs open_ F caps dflt (mkR [] None ctr (mkSrc ct pieces eofd None fc) log) acc
+        = Ok (acc ++ q, o, stf) /\
+      r_log stf = log ++ l.
+  Proof.
+    intros Hopen f; induction f as [|f IH];
+      intros ct ctr m Hf Hm Hlim F caps dflt pieces eofd fc log acc HF q o l; [lia|].
+    destruct F as [|F]; [lia|].
+    pose proof (ecs_pos cs) as Hecs.
+    rewrite r_drain_step_chunk by reflexivity.
+    destruct (read_full_spec (ecs cs) (mkSrc ct pieces eofd None fc) I) as (ps & Hrf).
+    cbn zeta in Hrf. unfold rf_result, avail in Hrf.
+    cbn [s_fault s_data s_eofdata s_fclass fault_sub] in Hrf.
+    unfold r_read_chunk. cbn [r_src r_err r_ctr r_log]. rewrite Hrf. clear Hrf.
+    destruct (Nat.eq_dec (length ct) 0) as [E0|E0].
+    - (* no data at all *)
+      apply length_zero_nil in E0. subst ct. cbn [dec_fuel length].
+      destruct (Nat.leb_spec (ecs cs) 0) as [|_]; [lia|]. cbn [Nat.ltb Nat.leb orb].
+      intro Hd; inversion Hd; subst; clear Hd.
+      eexists. split; [reflexivity|]. cbn [r_log]. now rewrite app_nil_r.
+    - assert (Hne : ct <> []) by (intro; subst ct; apply E0; reflexivity).
+      rewrite (dec_fuel_cons f ctr ct Hne). cbv zeta.
+      assert (Hm1 : 1 <= m) by (destruct m; [cbn [Nat.mul] in Hm; lia|lia]).
+      assert (Hctr1 : N.eqb (ctr + 1) ctr_limit = false) by (apply N.eqb_neq; lia).
+      destruct (Nat.ltb_spec (length ct) (ecs cs)) as [Hshort|Hlong].
+      + (* short final chunk *)
+        replace (Nat.min (ecs cs) (length ct)) with (length ct) by lia.
+        rewrite firstn_all, skipn_all.
+        destruct (Nat.leb_spec (ecs cs) (length ct)) as [|_]; [lia|].
+        destruct (Nat.ltb_spec 0 (length ct)) as [_|]; [|lia]. cbn [orb].
+        rewrite (firstn_all2 ct) by lia.
+        destruct (negb (N.eqb ctr 0) && Nat.eqb (length ct) overhead).
+        * intro Hd; inversion Hd; subst; clear Hd.
+          eexists. split; [reflexivity|]. cbn [r_log]. now rewrite app_nil_r.
+        * destruct (try_open open_ ctr true ct) as [[p|] a] eqn:Eto.
+          -- intro Hd; inversion Hd; subst; clear Hd.
+             rewrite Hctr1. cbn [r_src r_ctr r_log].
+             pose proof (Hopen _ _ _ (try_open_some _ _ _ _ _ _ Eto)) as Hpl.
+             set (s1 := mkSrc [] ps eofd None fc).
+             destruct (probe_spec s1 I) as (b & st & s2 & Hp & Hout). rewrite Hp, Hout.
+             unfold s1; cbn [s_fault s_data].
+             rewrite (drain_finish cs open_ _ _ _ _ CleanEOF); [|reflexivity|].
+             2:{ cbn [r_unread]. rewrite skipn_length. lia. }
+             cbn [r_unread r_ctr r_src r_log].
+             eexists. split; [rewrite <- app_assoc, firstn_skipn; reflexivity|reflexivity].
+          -- intro Hd; inversion Hd; subst; clear Hd.
+             eexists. split; [reflexivity|]. reflexivity.
+      + (* a full chunk *)
+        replace (Nat.min (ecs cs) (length ct)) with (ecs cs) by lia.
+        destruct (Nat.leb_spec (ecs cs) (length ct)) as [_|]; [|lia].
+        set (c := firstn (ecs cs) ct). set (rest := skipn (ecs cs) ct).
+        set (s1 := mkSrc rest ps eofd None fc).
+        assert (Hlc : length c = ecs cs) by (subst c; rewrite firstn_length; lia).
+        assert (Hlr : length ct = ecs cs + length rest) by (subst rest; rewrite skipn_length; lia).
+        destruct (try_open open_ ctr false c) as [[p|] a] eqn:Eto.
+        * rewrite Hctr1.
+          destruct (dec_fuel cs open_ f (ctr + 1) rest) as [[q' o'] l'] eqn:Ed.
+          intro Hd; inversion Hd; subst q o l; clear Hd.
+          cbn [r_src r_ctr r_log].
+          pose proof (Hopen _ _ _ (try_open_some _ _ _ _ _ _ Eto)) as Hpl.
+          destruct (drain_unread cs open_ _ (skipn (cap_of caps dflt) p) (le_n _) (caps_tl caps) dflt
+                      (mkR (skipn (cap_of caps dflt) p) None (ctr + 1) s1 (log ++ [a]))
+                      (acc ++ firstn (cap_of caps dflt) p) eq_refl) as (k & caps' & Hk & Hrun).
+          rewrite skipn_length in Hk.
+          replace F with (k + (F - k)) by lia. rewrite Hrun. cbn [r_err r_ctr r_src r_log].
+          destruct m as [|m']; [lia|]. cbn [Nat.mul] in Hm.
+          destruct (IH rest (ctr + 1)%N m' ltac:(lia) ltac:(lia) ltac:(lia)
+                      (F - k) caps' dflt ps eofd fc (log ++ [a])
+                      ((acc ++ firstn (cap_of caps dflt) p) ++ skipn (cap_of caps dflt) p)
+                      ltac:(lia) q' o' l' Ed) as (stf & Hr & Hl).
+          exists stf. unfold s1. rewrite Hr. split.
+          -- rewrite <- (app_assoc acc), firstn_skipn, <- app_assoc. reflexivity.
+          -- rewrite Hl, <- app_assoc. reflexivity.
+        * destruct (try_open open_ ctr true c) as [[p|] a'] eqn:Eto2.
+          -- rewrite Hctr1. intro Hd; inversion Hd; subst q o l; clear Hd.
+             cbn [r_src r_ctr r_log].
+             pose proof (Hopen _ _ _ (try_open_some _ _ _ _ _ _ Eto2)) as Hpl.
+             destruct (probe_spec s1 I) as (b & st & s2 & Hp & Hout). rewrite Hp, Hout.
+             unfold s1 at 1 2; cbn [s_fault s_data].
+             erewrite drain_finish; [|reflexivity|].
+             2:{ cbn [r_unread]. rewrite skipn_length. lia. }
+             cbn [r_unread r_ctr r_src r_log].
+             eexists. split; [rewrite <- app_assoc, firstn_skipn; reflexivity|reflexivity].
+          -- intro Hd; inversion Hd; subst; clear Hd.
+             eexists. split; [reflexivity|]. reflexivity.
+  Qed.
+
+  Lemma read_sched_indep_chunks :
+    forall (B : bytes) (pieces caps : list nat) (eofdata : bool) (dflt m : nat),
+      length B <= m * ecs cs ->
+      (N.of_nat m < ctr_limit)%N ->
+      open_len_ok open_ ->
+      run_reader cs open_ (mkSrc B pieces eofdata None EIo) caps dflt
+      = Ok (decrypt_spec cs open_ B).
+  Proof using cs_pos.
+    intros B pieces caps eofdata dflt m Hm Hlim Hopen.
+    unfold run_reader, drain_fuel, r_init, decrypt_spec. cbn [s_data].
+    destruct (dec_fuel cs open_ (S (length B)) 0 B) as [[q o] l] eqn:Ed.
+    destruct (drain_nofault Hopen (S (length B)) B 0%N m ltac:(lia) Hm ltac:(lia)
+                (3 + 2 * length B) caps dflt pieces eofdata EIo [] [] ltac:(lia) q o l Ed)
+      as (stf & Hr & Hl).
+    rewrite Hr. cbn [bind app]. rewrite Hl. reflexivity.
+  Qed.
+
+  Lemma read_sched_indep :
+    forall (B : bytes) (pieces caps : list nat) (eofdata : bool) (dflt : nat),
+      (N.of_nat (length B) < ctr_limit)%N ->
+      open_len_ok open_ ->
+      run_reader cs open_ (mkSrc B pieces eofdata None EIo) caps dflt
+      = Ok (decrypt_spec cs open_ B).
+  Proof using cs_pos.
+    intros B pieces caps eofdata dflt Hlim Hopen.
+    apply (read_sched_indep_chunks B pieces caps eofdata dflt (length B)); [|exact Hlim|exact Hopen].
+    pose proof (ecs_pos cs). nia.
+  Qed.
+
+  (** With a sticky fault after [k] bytes: same chunks up to the fault, then
+      the fault's error; never a clean end. *)
+  Lemma drain_fault : open_len_ok open_ -> forall f ct ctr m,
+    length ct < f -> length ct <= m * ecs cs -> (ctr + N.of_nat m < ctr_limit)%N ->
+    forall F caps dflt pieces eofd k fc log acc,
+      k <= length ct -> 2 * length ct + 1 <= F ->
+    exists q o stf,
+      r_drain cs open_ F caps dflt (mkR [] None ctr (mkSrc ct pieces eofd (Some k) fc) log) acc
+        = Ok (acc ++ q, o, stf) /\
+      o <> CleanEOF /\
+      is_prefix q (fst (fst (dec_fuel cs open_ f ctr ct))) = true.
+  Proof.
+    intros Hopen f; induction f as [|f IH];
+      intros ct ctr m Hf Hm Hlim F caps dflt pieces eofd k fc log acc Hk HF; [lia|].
+    destruct F as [|F]; [lia|].
+    pose proof (ecs_pos cs) as Hecs.
+    rewrite r_drain_step_chunk by reflexivity.
+    destruct (read_full_spec (ecs cs) (mkSrc ct pieces eofd (Some k) fc) Hk) as (ps & Hrf).
+    cbn zeta in Hrf. unfold rf_result, avail in Hrf.
+    cbn [s_fault s_data s_eofdata s_fclass fault_sub] in Hrf.
+    unfold r_read_chunk. cbn [r_src r_err r_ctr r_log]. rewrite Hrf. clear Hrf.
+    destruct (Nat.leb_spec (ecs cs) k) as [Hfull|Hfail].
+    - replace (Nat.min (ecs cs) k) with (ecs cs) by lia.
+      assert (Hne : ct <> []) by (intro; subst ct; cbn [length] in Hk; lia).
+      rewrite (dec_fuel_cons f ctr ct Hne). cbv zeta.
+      assert (Hm1 : 1 <= m) by (destruct m; [cbn [Nat.mul] in Hm; lia|lia]).
+      assert (Hctr1 : N.eqb (ctr + 1) ctr_limit = false) by (apply N.eqb_neq; lia).
+      destruct (Nat.ltb_spec (length ct) (ecs cs)) as [|_]; [lia|].
+      set (c := firstn (ecs cs) ct). set (rest := skipn (ecs cs) ct).
+      set (s1 := mkSrc rest ps eofd (Some (k - ecs cs)) fc).
+      assert (Hlc : length c = ecs cs) by (subst c; rewrite firstn_length; lia).
+      assert (Hlr : length ct = ecs cs + length rest) by (subst rest; rewrite skipn_length; lia).
+      assert (Hwf1 : wf_src s1) by (unfold wf_src, s1; cbn [s_fault s_data]; lia).
+      destruct (try_open open_ ctr false c) as [[p|] a] eqn:Eto.
+      + rewrite Hctr1.
+        destruct (dec_fuel cs open_ f (ctr + 1) rest) as [[q' o'] l'] eqn:Ed.
+        cbn [fst]. cbn [r_src r_ctr r_log].
+        pose proof (Hopen _ _ _ (try_open_some _ _ _ _ _ _ Eto)) as Hpl.
+        destruct (drain_unread cs open_ _ (skipn (cap_of caps dflt) p) (le_n _) (caps_tl caps) dflt
+                    (mkR (skipn (cap_of caps dflt) p) None (ctr + 1) s1 (log ++ [a]))
+                    (acc ++ firstn (cap_of caps dflt) p) eq_refl) as (j & caps' & Hj & Hrun).
+        rewrite skipn_length in Hj.
+        replace F with (j + (F - j)) by lia. rewrite Hrun. cbn [r_err r_ctr r_src r_log].
+        destruct m as [|m']; [lia|]. cbn [Nat.mul] in Hm.
+        destruct (IH rest (ctr + 1)%N m' ltac:(lia) ltac:(lia) ltac:(lia)
+                    (F - j) caps' dflt ps eofd (k - ecs cs) fc (log ++ [a])
+                    ((acc ++ firstn (cap_of caps dflt) p) ++ skipn (cap_of caps dflt) p)
+                    ltac:(lia) ltac:(lia)) as (q1 & o1 & stf & Hr & Ho & Hpre).
+        exists (p ++ q1), o1, stf. unfold s1. rewrite Hr. split; [|split; [exact Ho|]].
+        * rewrite <- (app_assoc acc), firstn_skipn, <- app_assoc. reflexivity.
+        * rewrite Ed in Hpre. cbn [fst] in Hpre. now apply sm_is_prefix_app_same.
+      + destruct (try_open open_ ctr true c) as [[p|] a'] eqn:Eto2.
+        * rewrite Hctr1. cbn [fst]. cbn [r_src r_ctr r_log].
+          pose proof (Hopen _ _ _ (try_open_some _ _ _ _ _ _ Eto2)) as Hpl.
+          destruct (probe_spec s1 Hwf1) as (b & st & s2 & Hp & Hout). rewrite Hp, Hout.
+          unfold s1 at 1 2 3; cbn [s_fault s_data s_fclass].
+          erewrite drain_finish; [|reflexivity|].
+          2:{ cbn [r_unread]. rewrite skipn_length. lia. }
+          cbn [r_unread r_ctr r_src r_log].
+          eexists p, _, _. split; [rewrite <- app_assoc, firstn_skipn; reflexivity|].
+          split; [destruct (k - ecs cs); discriminate|apply sm_is_prefix_refl].
+        * exists [], (Failed EPayload). eexists. split; [reflexivity|].
+          split; [discriminate|reflexivity].
+    - destruct (Nat.leb_spec (ecs cs) k) as [|_]; [lia|].
+      exists [], (Failed fc). eexists. split; [reflexivity|]. split; [discriminate|reflexivity].
+  Qed.
+
+  Lemma read_faults_surface :
+    forall (B : bytes) (pieces caps : list nat) (eofdata : bool) (dflt k : nat) (fc : errclass),
+      k <= length B ->
+      (N.of_nat (length B) < ctr_limit)%N ->
+      open_len_ok open_ ->
+      exists released o l,
+        run_reader cs open_ (mkSrc B pieces eofdata (Some k) fc) caps dflt = Ok (released, o, l) /\
+        o <> CleanEOF /\
+        is_prefix released (fst (fst (decrypt_spec cs open_ B))) = true.
+  Proof using cs_pos.
+    intros B pieces caps eofdata dflt k fc Hk Hlim Hopen.
+    unfold run_reader, drain_fuel, r_init, decrypt_spec. cbn [s_data].
+    pose proof (ecs_pos cs) as Hecs.
+    destruct (drain_fault Hopen (S (length B)) B 0%N (length B) ltac:(lia) ltac:(nia) ltac:(lia)
+                (3 + 2 * length B) caps dflt pieces eofdata k fc [] [] Hk ltac:(lia))
+      as (q & o & stf & Hr & Ho & Hpre).
+    rewrite Hr. cbn [bind app]. exists q, o, (r_log stf).
+    split; [reflexivity|]. split; [exact Ho|exact Hpre].
+  Qed.
+End ReaderFacts.
+
+(** * Both machines together *)
+
+Section Roundtrip.
+  Variable cs : nat.
+  Hypothesis cs_pos : 0 < cs.
+  Variable seal : bytes -> bytes -> bytes.
+  Variable open_ : bytes -> bytes -> option bytes.
+  Hypothesis aead_correct : forall n p, open_ n (seal n p) = Some p.
+  Hypothesis seal_len : forall n p, length (seal n p) = length p + 16.
+
+  Lemma machines_roundtrip :
+    forall (ws : list bytes) (pieces caps : list nat) (eofdata : bool) (dflt : nat),
+      (N.of_nat (length (concat ws)) < ctr_limit)%N ->
+      open_len_ok open_ ->
+      forall w d oks,
+        w_run cs seal bytes (fun d p => (d ++ p, true)) (w_init) [] ws [] = Ok (w, d, oks) ->
+        forall released o attempts,
+          run_reader cs open_ (mkSrc d pieces eofdata None EIo) caps dflt = Ok (released, o, attempts) ->
+          no_forgery (enc_chunks cs seal 0 (concat ws)) attempts ->
+          released = concat ws /\ o = CleanEOF /\ Forall (fun b => b = true) oks.
+  Proof using cs_pos aead_correct seal_len.
+    intros ws pieces caps eofdata dflt Hlim Hopen w d oks Hw released o attempts Hr Hnf.
+    destruct (write_seg_indep cs cs_pos seal ws [] Hlim) as (w0 & Hw0).
+    rewrite Hw0 in Hw. inversion Hw; subst w d oks; clear Hw. cbn [app] in *.
+    rewrite (read_sched_indep_chunks cs cs_pos open_ _ pieces caps eofdata dflt
+               (Nat.max 1 (length (concat ws)))) in Hr.
+    - pose proof (stream_roundtrip cs cs_pos seal open_ aead_correct seal_len (concat ws) Hlim) as HR.
+      destruct (decrypt_spec cs open_ (encrypt_spec cs seal (concat ws))) as [[r0 o0] a0].
+      inversion Hr; subst r0 o0 a0; clear Hr.
+      destruct (HR Hnf) as [H1 H2]. split; [exact H1|]. split; [exact H2|].
+      apply Forall_forall. intros b Hb.
+      apply (repeat_spec (S (length ws)) true b). exact Hb.
+    - unfold encrypt_spec, enc_chunks. apply enc_chunks_size_le; [exact cs_pos|exact seal_len].
+    - pose proof ctr_limit_gt1. lia.
+    - exact Hopen.
+  Qed.
+End Roundtrip.
